@@ -628,6 +628,14 @@ func c14CheckSeq(st *c14State, pre [][]byte, frame []byte) (what string) {
 		chk("route information", fmt.Sprintf("%d %d %v %x", g.PrefixLength, g.Preference, g.RouteLifetime, []byte(g.Prefix)),
 			fmt.Sprintf("%d %d %v %x", route.length, route.pref, time.Duration(route.lifetime)*time.Second, prefixBytes(route.addr, int(route.length))))
 	}
+	if differential {
+		// C10 compares the complete retained state of two runs, not only its agreement with the reference decode
+		return fmt.Sprintf("router{mac=%s ip=%v flags=%v/%v pref=%d hop=%d life=%v reach=%d retrans=%d prefixes=%v options{mtu=%d prefixes=%v first=%v rdnss=%v/%v slla=%s tlla=%s dnssl=%v route=%d/%d/%v/%x} default=%v} %s",
+			net.HardwareAddr(r.Addr.MAC), r.Addr.IP, r.ManagedFlag, r.OtherCondigFlag, r.Preference, r.CurHopLimit, r.DefaultLifetime, r.ReacheableTime, r.RetransTimer, r.Prefixes,
+			r.Options.MTU, r.Options.Prefixes, r.Options.FirstPrefix, r.Options.RDNSS.Lifetime, r.Options.RDNSS.Servers, net.HardwareAddr(r.Options.SourceLLA.MAC), net.HardwareAddr(r.Options.TargetLLA.MAC),
+			r.Options.DNSSearchList.DomainNames, r.Options.RouteInformation.PrefixLength, r.Options.RouteInformation.Preference, r.Options.RouteInformation.RouteLifetime, []byte(r.Options.RouteInformation.Prefix),
+			h.Router != nil && h.Router.Addr.IP == r.Addr.IP, strings.Join(diffs, "; "))
+	}
 	if len(diffs) > 0 {
 		return strings.Join(diffs, "; ")
 	}
